@@ -17,6 +17,8 @@ def make_validator(schema, cfg):
 def real_api(schema, cfg, doc, update, api):
     """api in validate / validate_nonorm / normalized; returns outcome dict"""
     cfg = vrun.real_cfg(cfg)
+    import spell
+    schema, cfg = spell.respell(schema, cfg, doc)
     try:
         v = make_validator(copy.deepcopy(schema), copy.deepcopy(cfg))
     except cerberus.SchemaError as e:
